@@ -4,6 +4,7 @@ package ctlog
 
 import (
 	"bufio"
+	"bytes"
 	"context"
 	"crypto/sha256"
 	"encoding/json"
@@ -27,8 +28,53 @@ import (
 // ---------------------------------------------------------------------------
 
 type c05Client struct {
-	b    LockBackend
-	held LockedCheckpoint
+	b LockBackend
+	// held: the handle the client continues from (last Fetch result or the
+	// result of its last successful Replace). fetched: the handle its last Fetch
+	// returned, which the "S" step uses again even after a Replace from it has
+	// succeeded (a retry with the handle still at hand, or a second holder of the
+	// same handle object). The *Snap fields are the handle's Bytes() at the time
+	// it was handed out: that is the value the handle stands for.
+	held        LockedCheckpoint
+	heldSnap    []byte
+	fetched     LockedCheckpoint
+	fetchedSnap []byte
+	watches     []c05Watch
+}
+
+// c05Watch remembers bytes that crossed the API (handed out by the backend or
+// handed in by the caller) together with a snapshot taken at that moment: a
+// backend must neither modify a caller's slice nor let a later operation
+// change what an earlier handle reads.
+type c05Watch struct {
+	what string
+	get  func() []byte
+	snap []byte
+}
+
+func (c *c05Client) watch(what string, get func() []byte, snap []byte) {
+	c.watches = append(c.watches, c05Watch{what, get, append([]byte{}, snap...)})
+}
+
+// aliasViolations compares every watched slice with its snapshot.
+func (c *c05Client) aliasViolations() []string {
+	var bad []string
+	for _, w := range c.watches {
+		if now := w.get(); !bytes.Equal(now, w.snap) {
+			bad = append(bad, fmt.Sprintf("%s read %s when it crossed the API and reads %s at the end of the program", w.what, c05ValName(w.snap), c05ValName(now)))
+		}
+	}
+	return bad
+}
+
+func (c *c05Client) resetState() {
+	c.held, c.heldSnap, c.fetched, c.fetchedSnap, c.watches = nil, nil, nil, nil, nil
+}
+
+// shareFrom makes c hold the very same handle object as o (two holders of one
+// fetched checkpoint inside one process).
+func (c *c05Client) shareFrom(o *c05Client) {
+	c.held, c.heldSnap, c.fetched, c.fetchedSnap = o.held, o.heldSnap, o.fetched, o.fetchedSnap
 }
 
 // c05ClassifySQLite maps an operation error to conflict / other for the SQLite
@@ -70,7 +116,7 @@ func (c *c05Client) do(op c05Op, logID [sha256.Size]byte, emptyNil bool, classif
 		if len(rec.Err) > 300 {
 			rec.Err = rec.Err[:300]
 		}
-		rec.ErrClass = classify(op.K, err)
+		rec.ErrClass = classify(rec.Kind, err)
 	}
 	switch op.K {
 	case "F":
@@ -79,7 +125,9 @@ func (c *c05Client) do(op c05Op, logID [sha256.Size]byte, emptyNil bool, classif
 		case err == nil && cp != nil:
 			rec.Res = "ok"
 			rec.Val = append([]byte{}, cp.Bytes()...)
-			c.held = cp
+			c.held, c.heldSnap = cp, rec.Val
+			c.fetched, c.fetchedSnap = cp, rec.Val
+			c.watch("Bytes() of a handle returned by Fetch", cp.Bytes, rec.Val)
 		case err == nil:
 			fail(errors.New("Fetch returned (nil, nil)"))
 		case errors.Is(err, ErrLogNotFound):
@@ -87,18 +135,29 @@ func (c *c05Client) do(op c05Op, logID [sha256.Size]byte, emptyNil bool, classif
 		default:
 			fail(err)
 		}
-	case "R":
-		if c.held == nil {
+	case "R", "S":
+		// R continues from the held handle, S uses the last fetched handle again
+		h, hsnap := c.held, c.heldSnap
+		if op.K == "S" {
+			h, hsnap = c.fetched, c.fetchedSnap
+			rec.Kind = "R"
+			rec.Reused = true
+		}
+		if h == nil {
 			return rec, true
 		}
-		rec.Old = append([]byte{}, c.held.Bytes()...)
+		// the value the handle stands for is the one it had when handed out
+		rec.Old = append([]byte{}, hsnap...)
 		rec.New = append([]byte{}, c05Values[op.V]...)
-		cp, err := c.b.Replace(ctx, c.held, val())
+		in := val()
+		cp, err := c.b.Replace(ctx, h, in)
+		c.watch("the new-value slice passed to Replace", func() []byte { return in }, rec.New)
 		switch {
 		case err == nil && cp != nil:
 			rec.Res = "ok"
 			rec.Val = append([]byte{}, cp.Bytes()...)
-			c.held = cp
+			c.held, c.heldSnap = cp, rec.Val
+			c.watch("Bytes() of a handle returned by Replace", cp.Bytes, rec.Val)
 		case err == nil:
 			fail(errors.New("Replace returned (nil, nil)"))
 		default:
@@ -106,7 +165,9 @@ func (c *c05Client) do(op c05Op, logID [sha256.Size]byte, emptyNil bool, classif
 		}
 	case "C":
 		rec.New = append([]byte{}, c05Values[op.V]...)
-		err := c.b.Create(ctx, logID, val())
+		in := val()
+		err := c.b.Create(ctx, logID, in)
+		c.watch("the new-value slice passed to Create", func() []byte { return in }, rec.New)
 		if err == nil {
 			rec.Res = "ok"
 		} else {
@@ -193,6 +254,9 @@ type c05Actor interface {
 	stepPaused(op c05Op, logID [sha256.Size]byte, emptyNil bool, k int, during func() error) (rec c05Rec, skipped, fired bool, err error)
 	reopen() error
 	reset() error
+	// alias reports watched slices (handles' Bytes(), values handed in) that no
+	// longer read as they did when they crossed the API
+	alias() ([]string, error)
 }
 
 type c05LocalActor struct {
@@ -247,7 +311,9 @@ func (a *c05LocalActor) reopen() error {
 	return nil
 }
 
-func (a *c05LocalActor) reset() error { a.cl.held = nil; return nil }
+func (a *c05LocalActor) reset() error { a.cl.resetState(); return nil }
+
+func (a *c05LocalActor) alias() ([]string, error) { return a.cl.aliasViolations(), nil }
 
 func (a *c05LocalActor) close() {
 	if a.own {
@@ -283,6 +349,7 @@ type c05WResp struct {
 	Paused  bool   `json:"paused,omitempty"` // intermediate message: the operation is parked before its k-th statement
 	Query   string `json:"query,omitempty"`
 	Fired   bool   `json:"fired,omitempty"`
+	Alias   []string `json:"alias,omitempty"`
 }
 
 // c05WorkerMain is the helper-process mode.
@@ -313,6 +380,8 @@ func c05WorkerMain() {
 				}
 			case "reset":
 				act.reset()
+			case "alias":
+				resp.Alias, _ = act.alias()
 			case "step":
 				var id [sha256.Size]byte
 				copy(id[:], q.LogID)
@@ -446,6 +515,14 @@ func (w *c05Worker) stepPaused(op c05Op, logID [sha256.Size]byte, emptyNil bool,
 	return r, resp.Skipped, resp.Fired, nil
 }
 
+func (w *c05Worker) alias() ([]string, error) {
+	resp, err := w.call(c05WReq{Cmd: "alias"})
+	if err != nil {
+		return nil, err
+	}
+	return resp.Alias, nil
+}
+
 func (w *c05Worker) reopen() error { _, err := w.call(c05WReq{Cmd: "reopen"}); return err }
 func (w *c05Worker) reset() error  { _, err := w.call(c05WReq{Cmd: "reset"}); return err }
 
@@ -461,6 +538,7 @@ type c05Exec struct {
 	Trace   []string
 	Missing string // non-empty: a Fetch of a missing log returned a generic error (message)
 	Fired   bool   // statement-level modes: the preemption point was reached
+	Alias   []string // aliasing violations (bytes that changed after they crossed the API)
 }
 
 // c05Preempt places another client's whole operation between two SQL
@@ -560,6 +638,15 @@ func (e *c05SQLiteEnv) runSeq(sc c05Scenario, order []int, pre *c05Preempt) (*c0
 			}
 			stamp(r, -1)
 		}
+		if sc.Share {
+			first, ok := actors[0].(*c05LocalActor)
+			if !ok {
+				return nil, fmt.Errorf("mode %q cannot share a handle object between clients", sc.Mode)
+			}
+			for i := 1; i < k; i++ {
+				actors[i].(*c05LocalActor).cl.shareFrom(&first.cl)
+			}
+		}
 	}
 	pc := make([]int, k)
 	if pre != nil && (pre.Pos < 0 || pre.Pos+1 >= len(order) || order[pre.Pos] == order[pre.Pos+1] || pre.K < 1) {
@@ -632,6 +719,16 @@ func (e *c05SQLiteEnv) runSeq(sc c05Scenario, order []int, pre *c05Preempt) (*c0
 	r, _ := fc.do(c05Op{K: "F"}, logID, false, c05ClassifySQLite)
 	fresh.conn.Close()
 	stamp(r, -2)
+	for i, a := range actors {
+		al, err := a.alias()
+		if err != nil {
+			return nil, err
+		}
+		for _, m := range al {
+			ex.Alias = append(ex.Alias, fmt.Sprintf("client %d: %s", i, m))
+		}
+	}
+	ex.Alias = append(ex.Alias, fc.aliasViolations()...)
 	sort.SliceStable(ex.Hist, func(i, j int) bool { return ex.Hist[i].Call < ex.Hist[j].Call })
 	return ex, nil
 }
